@@ -5,14 +5,21 @@ theorems   Cppcheck.Determinism.sort_perm_invariant, lister_perm_invariant_files
            runFiles_argument_order_matters; runFiles_eq: runFiles = markupLast . dedupPaths . sorted selections), dump_alpha +
            canon_complete = canon_eq_iff (two dumps have the same canonical form IFF they differ by an injective renaming of
            the ids: the comparison is neither too coarse nor too fine), canon_eq_rename, canon_lits
+           keyed_sort_perm_invariant / keyed_sort_stable / keyed_set_collapses / keyed_set_perm_invariant (a sort or ordered set
+           under a comparator on layout-independent keys is a function of keys and arrival order) and
+           address_tiebreak_layout_dependent (a tie-break by address is not)
 T          enumeration of containers in lib/ whose iteration order depends on addresses or hashing (ordered containers
-           keyed by pointers, unordered containers) - listed in the evidence, NOT proved harmless
+           keyed by pointers, unordered containers) - listed in the evidence, NOT proved harmless; every user comparator
+           (functor, lambda, static predicate, std::less<T*>) of lib/ and cli/ is extracted and classified: one that orders by
+           raw addresses (or cannot be classified) and is not in the reviewed list is an undischarged obligation
 C          (1) the indices the python canonicaliser really substitutes into a <dump> element = the Lean `canon` on the id
            occurrences of that element; (2) file order: the order of the `Checking ...` lines of the real binary on directory
            trees (sources, headers, other files, .qml markup with --library=qt) created in two different orders on tmpfs and
            given as several arguments = `Determinism.runFiles` itself, evaluated by the driver on the trees as enumerated
-P_impl     the same command run under different address-space layouts (ASLR on/off, MALLOC_PERTURB_, tcache off, mmap
-           threshold, arena count, environment size, working-directory depth) and with shuffled directory creation order
+P_impl     the same command run under different address-space layouts (ASLR on/off, MALLOC_PERTURB_, tcache off, arena count,
+           environment size, working-directory depth, and layouts that REVERSE the relative order of heap objects: mmap threshold
+           0 / 128, a preloaded descending-address allocator built from harness/c29_downalloc.c) and with shuffled directory
+           creation order, on inputs that include macro expansions declaring several entities at one file/line/column
            gives byte-identical text / xml output and identical dumps after canonicalisation
 """
 import json, os, re, shutil
@@ -48,7 +55,9 @@ THEOREMS = ["Cppcheck.Determinism.sort_perm_invariant", "Cppcheck.Determinism.li
             "Cppcheck.Determinism.runFiles_argument_order_matters", "Cppcheck.Determinism.dump_alpha",
             "Cppcheck.Determinism.dump_alpha_counterexample_not_injective", "Cppcheck.Determinism.canon_lits",
             "Cppcheck.Determinism.canon_eq_rename", "Cppcheck.Determinism.canon_complete", "Cppcheck.Determinism.canon_eq_iff",
-            "Cppcheck.Determinism.runFiles_eq"]
+            "Cppcheck.Determinism.runFiles_eq", "Cppcheck.Determinism.keyed_sort_perm_invariant", "Cppcheck.Determinism.keyed_sort_stable",
+            "Cppcheck.Determinism.keyed_set_collapses", "Cppcheck.Determinism.keyed_set_perm_invariant",
+            "Cppcheck.Determinism.address_tiebreak_layout_dependent"]
 MODULES = ["Cppcheck.Props.C29"]
 
 # attributes of the dump that hold addresses
@@ -151,22 +160,210 @@ def enumerate_containers(repo):
 
 
 # ------------------------------------------------------------------------------------------------
+# T: user comparators (ordered containers with a comparator, sort / set_difference / unique ... with a predicate)
+# ------------------------------------------------------------------------------------------------
+
+CMP_HEADS = [
+    ("functor", re.compile(r"bool\s+operator\(\)\s*\(([^()]*)\)\s*(?:const\s*)?\{")),
+    ("lambda", re.compile(r"\[[^\[\]]*\]\s*\(([^()]*)\)\s*(?:mutable\s*)?(?:->\s*[\w:]+\s*)?\{")),
+    ("function", re.compile(r"static\s+bool\s+(\w+)\s*\(([^()]*)\)\s*\{")),
+]
+REL_RE = re.compile(r"([A-Za-z_][\w\.]*(?:(?:->|\.)[A-Za-z_]\w*|\([^()]*\))*)\s*(<=|>=|<|>)\s*([A-Za-z_][\w\.]*(?:(?:->|\.)[A-Za-z_]\w*|\([^()]*\))*)")
+
+
+def _split_params(ps):
+    out, depth, cur = [], 0, ""
+    for ch in ps:
+        if ch in "<(":
+            depth += 1
+        elif ch in ">)":
+            depth -= 1
+        if ch == "," and depth == 0:
+            out.append(cur)
+            cur = ""
+        else:
+            cur += ch
+    if cur.strip():
+        out.append(cur)
+    res = []
+    for q in out:
+        q = q.strip()
+        m = re.match(r"(.*?)([A-Za-z_]\w*)\s*$", q)
+        if not m:
+            return None
+        res.append((m.group(1).strip(), m.group(2)))
+    return res
+
+
+class _Decls:
+    """field and method declarations of lib/ (text search): is `X::name` a pointer?"""
+    def __init__(self, repo):
+        import glob
+        self.text = "\n".join(c17._strip_comments(open(f, encoding="utf-8", errors="replace").read())
+                              for f in sorted(glob.glob(os.path.join(repo, "lib", "*.h")) + glob.glob(os.path.join(repo, "lib", "*.cpp"))))
+
+    def field_is_pointer(self, name):
+        ptr = re.search(r"[\w>]\s*\*\s*(?:const\s+)?%s\s*(?:\{[^}]*\})?\s*[;=]" % re.escape(name), self.text) is not None
+        val = re.search(r"(?:int|bool|char|long|size_t|std::string|unsigned|double|nonneg int|std::uint\w+|MathLib::bigint)\s+%s\s*(?:\{[^}]*\})?\s*[;=]" % re.escape(name), self.text) is not None
+        return "pointer" if ptr and not val else ("value" if val and not ptr else "unknown")
+
+    def method_returns_pointer(self, name):
+        ptr = re.search(r"[\w>]\s*\*\s*&?\s*%s\s*\([^()]*\)\s*(?:const)?" % re.escape(name), self.text) is not None
+        val = re.search(r"(?:int|bool|char|long|size_t|std::string|std::string\s*&|unsigned|double|nonneg int|std::uint\w+|MathLib::bigint|auto)\s+&?%s\s*\([^()]*\)" % re.escape(name), self.text) is not None
+        return "pointer" if ptr and not val else ("value" if val else "unknown")
+
+
+def _operand_class(op, params, decls):
+    """'key' (layout independent), 'address', 'unknown', or None when the operand does not involve a parameter"""
+    names = {n: t for t, n in params}
+    m = re.match(r"([A-Za-z_]\w*)(.*)$", op)
+    if not m or m.group(1) not in names:
+        return None
+    ty, rest = names[m.group(1)], m.group(2)
+    if rest == "":
+        if "*" in ty:
+            return "address"
+        return "key" if re.search(r"\b(int|bool|char|long|size_t|string|unsigned|double|bigint|T|U|FileWithDetails|TokenAndName|dataElementType|ValueIterator|Value)\b", ty) else "unknown"
+    last = re.findall(r"(?:->|\.)([A-Za-z_]\w*)(\([^()]*\))?", rest)
+    if not last:
+        return "unknown"
+    fname, call = last[-1]
+    if call:
+        r = decls.method_returns_pointer(fname)
+        return "address" if r == "pointer" else ("key" if r == "value" else "unknown")
+    if fname in ("first", "second") and "pair<" in ty:
+        inner = ty[ty.index("pair<") + 5:]
+        parts, depth, cur = [], 0, ""
+        for ch in inner:
+            if ch == "<":
+                depth += 1
+            elif ch == ">":
+                if depth == 0:
+                    break
+                depth -= 1
+            if ch == "," and depth == 0:
+                parts.append(cur)
+                cur = ""
+            else:
+                cur += ch
+        parts.append(cur)
+        k = 0 if fname == "first" else 1
+        return ("address" if "*" in parts[k] else "key") if k < len(parts) else "unknown"
+    r = decls.field_is_pointer(fname)
+    return "address" if r == "pointer" else ("key" if r == "value" else "unknown")
+
+
+def scan_comparators(repo):
+    """every two-parameter predicate in lib/ and cli/ that relates its two parameters with < > <= >=, with a verdict:
+    'keys' (all compared operands are layout-independent values), 'address' (an operand is a raw pointer: the parameter itself,
+    a pointer field, a method returning a pointer, std::less<T*>, id_string / uintptr_t), 'unknown'"""
+    import glob
+    decls = _Decls(repo)
+    out = []
+    for f in sorted(glob.glob(os.path.join(repo, "lib", "*.cpp")) + glob.glob(os.path.join(repo, "lib", "*.h")) + glob.glob(os.path.join(repo, "cli", "*.cpp"))):
+        rel = os.path.relpath(f, repo)
+        text = c17._strip_comments(open(f, encoding="utf-8", errors="replace").read())
+        for m in re.finditer(r"std::(less|greater)(_equal)?\s*<\s*(?:const\s+)?[\w:]+\s*(?:const\s*)?\*", text):
+            out.append(dict(file=rel, kind="std::" + m.group(1), sig=re.sub(r"\s+", " ", m.group(0)), verdict="address", why="orders raw pointers"))
+        for kind, rx in CMP_HEADS:
+            for m in rx.finditer(text):
+                params = _split_params(m.group(2) if kind == "function" else m.group(1))
+                if not params or len(params) != 2:
+                    continue
+                t0, t1 = re.sub(r"\s+", "", params[0][0]), re.sub(r"\s+", "", params[1][0])
+                if t0 != t1 and not (re.fullmatch(r"const[TU]&", t0) and re.fullmatch(r"const[TU]&", t1)):
+                    continue
+                try:
+                    body, _ = c17._body(text, m.end() - 1)
+                except ValueError:
+                    continue
+                verdicts, why = [], []
+                if re.search(r"id_string\s*\(|uintptr_t|std::less\s*<", body):
+                    verdicts.append("address")
+                    why.append("converts an address to a number / string")
+                # locals initialised from the parameters: `const int lineA = a->nameToken()->linenr();`, `const Token* ta = a.tok;`
+                locs = {}
+                for lm in re.finditer(r"(?:const\s+)?([\w:<>]+(?:\s*(?:const\s*)?\*)?)\s*(?:const\s+)?([A-Za-z_]\w*)\s*=\s*([^;{}]+);", body):
+                    if any(re.search(r"\b%s\b" % re.escape(n), lm.group(3)) for _, n in params):
+                        locs[lm.group(2)] = "address" if "*" in lm.group(1) else ("unknown" if lm.group(1) == "auto" else "key")
+                for r in REL_RE.finditer(body):
+                    a, b = _operand_class(r.group(1), params, decls), _operand_class(r.group(3), params, decls)
+                    if a is None and r.group(1) in locs:
+                        a = locs[r.group(1)]
+                    if b is None and r.group(3) in locs:
+                        b = locs[r.group(3)]
+                    if a is None or b is None:
+                        continue
+                    names = (re.match(r"\w+", r.group(1)).group(0), re.match(r"\w+", r.group(3)).group(0))
+                    if names[0] == names[1]:
+                        continue
+                    for c in (a, b):
+                        verdicts.append(c)
+                    if "address" in (a, b) or "unknown" in (a, b):
+                        why.append("%s %s %s" % (r.group(1), r.group(2), r.group(3)))
+                if not verdicts:
+                    continue        # the two parameters are never related by an order: not a comparator
+                v = "address" if "address" in verdicts else ("unknown" if "unknown" in verdicts else "keys")
+                nm = m.group(1) if kind == "function" else ""
+                out.append(dict(file=rel, kind=kind, name=nm, sig="%s(%s){%s}" % (nm, re.sub(r"\s+", " ", m.group(2) if kind == "function" else m.group(1)),
+                                                                             re.sub(r"\s+", " ", body)[:400]), verdict=v, why="; ".join(why)))
+    return out
+
+
+def translate_comparators(ctx, res):
+    found = scan_comparators(ctx.repo)
+    p = os.path.join(core.VERIF, "corpus", "C29", "comparators.json")
+    reviewed = json.load(open(p)) if os.path.exists(p) else {}
+    bad = []
+    for c in found:
+        key = c["file"] + ": " + c["sig"]
+        c["review"] = reviewed.get(key, "")
+        if c["verdict"] != "keys" and key not in reviewed:
+            bad.append("%s [%s] %s" % (key[:260], c["verdict"], c["why"]))
+    res.extra["comparators"] = [dict(where=c["file"], kind=c["kind"], verdict=c["verdict"], why=c["why"], review=c["review"], text=c["sig"][:200]) for c in found]
+    res.oblig("translation:comparators-use-layout-independent-keys", not bad and len(found) >= 5, "translation",
+              "" if not bad and len(found) >= 5 else ("only %d comparators found (pattern no longer matches the code?)" % len(found) if not bad else
+              "comparator(s) that order by raw addresses (or that the scanner cannot classify) and are not in the reviewed list corpus/C29/comparators.json - "
+              "a sort / ordered container under such a comparator gives an order that depends on the heap layout: %s" % bad[:3]))
+    return found
+
+
+# ------------------------------------------------------------------------------------------------
 # perturbed runs
 # ------------------------------------------------------------------------------------------------
 
-def layouts(tier):
+def layouts(tier, down_so=None):
+    """differently laid-out processes.  Plain ASLR only shifts the heap as a whole; the reversing layouts change the RELATIVE order
+    of objects: every allocation served by its own mmap (mmap_threshold=0 / 128: later mappings lie lower), tcache off, and a
+    preloaded allocator that hands out strictly descending addresses (harness/c29_downalloc.c)"""
     base = [
         dict(name="reference", env={}, pre=[]),
         dict(name="perturb+arena1+bigenv", env={"MALLOC_PERTURB_": "165", "MALLOC_ARENA_MAX": "1", "C29_PAD": "x" * 3001}, pre=[]),
         dict(name="no-aslr", env={"C29_PAD": "y" * 17}, pre=["setarch", "x86_64", "-R"]),
         dict(name="tcache-off+mmap4096", env={"GLIBC_TUNABLES": "glibc.malloc.tcache_count=0:glibc.malloc.mmap_threshold=4096"}, pre=[]),
+        dict(name="mmap-threshold-0", env={"GLIBC_TUNABLES": "glibc.malloc.mmap_threshold=0:glibc.malloc.mmap_max=4000000"}, pre=[], small=True),
+        dict(name="mmap-threshold-128+tcache-off", env={"GLIBC_TUNABLES": "glibc.malloc.mmap_threshold=128:glibc.malloc.tcache_count=0:glibc.malloc.mmap_max=4000000"}, pre=[]),
     ]
+    if down_so:
+        base.append(dict(name="descending-allocator", env={"LD_PRELOAD": down_so}, pre=[]))
     if tier == "thorough":
         base += [
             dict(name="top-pad+perturb", env={"MALLOC_TOP_PAD_": "1048576", "MALLOC_PERTURB_": "90", "C29_PAD": "z" * 70000}, pre=[]),
-            dict(name="mmap-all", env={"GLIBC_TUNABLES": "glibc.malloc.mmap_threshold=128:glibc.malloc.mmap_max=4000000"}, pre=[]),
         ]
     return base
+
+
+def build_down_allocator(ctx, res):
+    """harness/c29_downalloc.c -> shared object in the temp directory of the run; None when it cannot be built or does not work"""
+    src = os.path.join(core.VERIF, "harness", "c29_downalloc.c")
+    so = os.path.join(ctx.tmp, "c29_downalloc.so")
+    rc, out, err = _sh(["gcc", "-O1", "-shared", "-fPIC", "-o", so, src])
+    ok = rc == 0 and os.path.exists(so)
+    if ok:
+        rc2, o2, e2 = _sh([ctx.cppcheck, "--version"], env={"LD_PRELOAD": so})
+        ok = rc2 == 0 and "Cppcheck" in o2
+    res.oblig("machinery:descending-allocator", ok, "machinery", "" if ok else "harness/c29_downalloc.c does not build or cppcheck does not run under it: " + (err or "")[-300:])
+    return so if ok else None
 
 
 def have_setarch():
@@ -188,6 +385,57 @@ def make_tree(root, files, order):
         open(q, "w").write(files[p])
 
 
+def gen_macro_file(rng):
+    """C file in which several entities share file / line / column through one macro expansion: pointer locals that could be
+    pointers to const, parameters, null pointers, uninitialised variables, unused variables - the findings of several checks
+    then carry the same location, and their order is whatever the checks' containers make of it"""
+    L = ["struct rec { struct rec *link; int a; int b; };", "struct box { struct rec *first; int n; };",
+         "struct rec *get_rec(int k);", "struct box *get_box(const struct rec *r);", "int sink(int v);", ""]
+    nmac = rng.choice([2, 3, 4])
+    for m in range(nmac):
+        kind = rng.choice(["decl2", "decl2", "decl3", "null2", "uninit2", "unused2"])
+        if kind == "decl2":
+            L.append("#define M%d(p, q, k) struct rec *p = get_rec(k); struct box *q = get_box(p);" % m)
+        elif kind == "decl3":
+            L.append("#define M%d(p, q, r, k) struct rec *p = get_rec(k); struct rec *q = get_rec(k + 1); struct box *r = get_box(p);" % m)
+        elif kind == "null2":
+            L.append("#define M%d(p, q) do { int *p = 0; int *q = 0; sink(*p); sink(*q); } while (0)" % m)
+        elif kind == "uninit2":
+            L.append("#define M%d(u, v) int u; int v; sink(u + v);" % m)
+        else:
+            L.append("#define M%d(u, v) int u = 1; int v = 2;" % m)
+        L.append("/* %s */" % kind)
+    kinds = [l[3:-3] for l in L if l.startswith("/* ")]
+    L = [l for l in L if not l.startswith("/* ")]
+    L.append("")
+    for f in range(rng.choice([3, 4, 6])):
+        m = rng.randrange(nmac)
+        kind = kinds[m]
+        n = ["v%d_%d" % (f, i) for i in range(3)]
+        rng.shuffle(n)
+        L.append("int fn%d(int key)" % f)
+        L.append("{")
+        if kind == "decl2":
+            L.append("    M%d(%s, %s, key)" % (m, n[0], n[1]))
+            L.append("    return %s->a + %s->n;" % (n[0], n[1]))
+        elif kind == "decl3":
+            L.append("    M%d(%s, %s, %s, key)" % (m, n[0], n[1], n[2]))
+            L.append("    return %s->a + %s->b + %s->n;" % (n[0], n[1], n[2]))
+        elif kind == "null2":
+            L.append("    M%d(%s, %s);" % (m, n[0], n[1]))
+            L.append("    return key;")
+        elif kind == "uninit2":
+            L.append("    M%d(%s, %s)" % (m, n[0], n[1]))
+            L.append("    return key;")
+        else:
+            L.append("    M%d(%s, %s)" % (m, n[0], n[1]))
+            L.append("    return key;")
+        L.append("}")
+    if rng.random() < 0.7:
+        L.append("int par(struct rec *pa, struct rec *pb, struct box *pc) { return pa->a + pb->b + pc->n; }")
+    return "\n".join(L) + "\n"
+
+
 def gather_inputs(ctx, rng, res):
     """list of dict(name, files {rel: text}, args [...], options [...])"""
     repo = ctx.repo
@@ -205,6 +453,11 @@ def gather_inputs(ctx, rng, res):
                 files[os.path.relpath(p, repo)] = open(p, encoding="utf-8", errors="replace").read()
     if files:
         inputs.append(dict(name="samples", files=files, args=["samples"], options=[]))
+    wm = os.path.join(core.VERIF, "corpus", "C29", "witness_macro_decls.c")
+    if os.path.exists(wm):
+        inputs.append(dict(name="corpus/witness_macro_decls.c", files={"witness_macro_decls.c": open(wm).read()}, args=["witness_macro_decls.c"], options=[]))
+    for i in range(2 if ctx.tier != "thorough" else 10):
+        inputs.append(dict(name="macrogen%d" % i, files={"m%d.c" % i: gen_macro_file(rng)}, args=["m%d.c" % i], options=[]))
     cfg_small = ["bsd.c", "openmp.c", "lua.c", "cairo.c", "selinux.c", "libsigc++.cpp", "cppunit.cpp", "googletest.cpp", "emscripten.cpp", "kde.cpp", "sqlite3.c", "libcurl.c"]
     cfg_big = ["python.c", "std.c", "std.cpp", "posix.c", "gnu.c", "qt.cpp", "boost.cpp", "windows.cpp", "wxwidgets.cpp", "gtk.c", "openssl.c", "mfc.cpp", "opencv2.cpp"]
     pick = rng.sample(cfg_small, 2) if ctx.tier != "thorough" else cfg_small + rng.sample(cfg_big, 4)
@@ -216,7 +469,7 @@ def gather_inputs(ctx, rng, res):
         opts = [] if lib in ("std",) else ["--library=" + lib]
         if lib in ("gnu", "bsd", "selinux"):
             opts.append("--library=posix")
-        inputs.append(dict(name="cfg/" + c, files={c: open(p, encoding="utf-8", errors="replace").read()}, args=[c], options=opts))
+        inputs.append(dict(name="cfg/" + c, files={c: open(p, encoding="utf-8", errors="replace").read()}, args=[c], options=opts, big=c in cfg_big))
     for i in range(1 if ctx.tier != "thorough" else 12):
         proj = c17.gen_project(rng, lambda *a, **k: None)
         dirs = sorted(set(p.split("/")[0] for p in proj["files"] if "/" in p))
@@ -243,12 +496,12 @@ def checking_order(stdout):
     return out
 
 
-def one_input(ctx, res, drv, inp, k, no_aslr_ok, stats):
+def one_input(ctx, res, drv, inp, k, no_aslr_ok, stats, down_so=None):
     """all commands x all layouts for one input; returns list of problems"""
     rng_orders = ctx.rng
     root = os.path.join(ctx.tmp, "i%d" % k)
     problems = []
-    lays = layouts(ctx.tier)
+    lays = [l for l in layouts(ctx.tier, down_so) if not (l.get("small") and inp.get("big"))]
     names = sorted(inp["files"])
     trees = []
     for j, lay in enumerate(lays):
@@ -303,7 +556,9 @@ def one_input(ctx, res, drv, inp, k, no_aslr_ok, stats):
                 continue
             stats("layout:" + lay["name"])
             if got["rc"] != ref["rc"] or got["out"] != ref["out"]:
-                problems.append(("output", dict(input=inp["name"], command=cname, layout=lay["name"], ref=ref["out"][-1500:], got=got["out"][-1500:],
+                problems.append(("output", dict(input=inp["name"], command=cname, layout=lay["name"], layout_env={k_: (v_ if len(v_) < 200 else v_[:20] + "...") for k_, v_ in lay["env"].items()},
+                                                layout_prefix=lay["pre"], reference_layout="reference (no environment change)",
+                                                cmdline=" ".join(copts + inp["options"] + inp["args"]), ref=ref["out"][-1500:], got=got["out"][-1500:],
                                                 diff=first_diff(ref["out"], got["out"]), files=inp["files"] if len(json.dumps(inp["files"])) < 20000 else None,
                                                 args=inp["args"], options=inp["options"])))
             if cname == "dump":
@@ -470,14 +725,16 @@ def run(ctx, res):
         "abspath() of a listed file is modelled by its path string: aliases of one file (./d/a.c, d//a.c, symlinks) are not generated",
         "an address identifies one object within one <dump cfg> element (the canonicaliser restarts per element; python only)",
     ]
+    translate_comparators(ctx, res)
     no_aslr_ok = have_setarch()
     res.count("setarch:" + ("available" if no_aslr_ok else "missing"))
+    down_so = build_down_allocator(ctx, res)
     inputs = gather_inputs(ctx, ctx.rng, res)
     stats = res.count
 
     def work(item):
         k, inp = item
-        return one_input(ctx, res, drv, inp, k, no_aslr_ok, stats)
+        return one_input(ctx, res, drv, inp, k, no_aslr_ok, stats, down_so)
     with ThreadPoolExecutor(max_workers=8) as ex:
         outs = list(ex.map(work, list(enumerate(inputs))))
     problems = [p for o in outs for p in o] + argument_order_cases(ctx, res, drv)
@@ -502,8 +759,9 @@ def replay(ctx, res, rp):
     drv = ctx.driver("drv_c29")
     inp = dict(name=rp.get("input", "replay"), files=rp["files"], args=rp["args"], options=rp.get("options", []))
     bad = 0
+    down_so = build_down_allocator(ctx, res)
     for rep in range(3):
-        ps = one_input(ctx, res, drv, inp, rep, have_setarch(), res.count)
+        ps = one_input(ctx, res, drv, inp, rep, have_setarch(), res.count, down_so)
         bad += sum(1 for k, _ in ps if k == "output")
     print("replay: %d differing runs" % bad)
     return 1 if bad else 0
